@@ -91,12 +91,18 @@ func report(c *vf.Ctx, r *run) {
 
 func child(c *vf.Ctx) {
 	switch c.Child {
-	case "batch": // args: first index, count
+	case "batch", "stress": // args: first index, count
 		first, _ := strconv.Atoi(c.ChildArgs[0])
 		n, _ := strconv.Atoi(c.ChildArgs[1])
 		for i := first; i < first+n; i++ {
-			sp := genSpec(c.Rand(fmt.Sprintf("run/%d", i)), i)
-			mark(c, fmt.Sprintf("random run %d", i))
+			var sp spec
+			if c.Child == "stress" {
+				sp = genStress(c.Rand(fmt.Sprintf("stress/%d", i)), i)
+				c.Count("add_vs_shutdown_stress_runs", 1)
+			} else {
+				sp = genSpec(c.Rand(fmt.Sprintf("run/%d", i)), i)
+			}
+			mark(c, fmt.Sprintf("%s run %d", c.Child, i))
 			report(c, runRandom(sp))
 			if (i-first)%8 == 7 {
 				c.FlushStats()
@@ -291,6 +297,10 @@ func parent(c *vf.Ctx) {
 	}
 	for first := 0; first < nRace; first += per {
 		jobs = append(jobs, job{"batch", []string{strconv.Itoa(1000000 + first), strconv.Itoa(min(per, nRace-first))}, true, per})
+	}
+	nStress := c.Pick(4000, 60000)
+	for first := 0; first < nStress; first += 1000 {
+		jobs = append(jobs, job{"stress", []string{strconv.Itoa(first), "1000"}, first%3000 == 2000, 1000})
 	}
 	par := max(2, min(8, runtime.NumCPU()/2))
 	vf.Parallel(len(jobs), par, func(i int) {
